@@ -151,6 +151,25 @@ CHECKS['C08'] = dict(
     technique="TLA+ refinement model + TLC trace validation of recorded supervised / helper+base / perturbed-unlabeled executions",
     ref="DESIGN.md section 5 C08")
 
+CHECKS['C20'] = dict(
+    text=("TLC exhausts MC_PSD (all M = Vs diag(w) Vs^T of size 2-3 with exact scaled-orthogonal integer Vs and integer "
+          "spectra of every sign pattern and rank: symmetric, PSD on the grid iff w >= 0, exact negative witness "
+          "otherwise); every state and random matrices up to 8x8 with an exact spectral certificate (products of "
+          "Pythagorean Givens rotations; singular, indefinite, near-PSD inside / outside an explicit tolerance, "
+          "diagonal, non-symmetric, spectra spanning 2^+-40) go through components_from_metric; TLC (TR_PSD) verifies "
+          "the certificate exactly, derives the documented outcome from spectrum and tolerance (PSD!SpectrumVerdict) and "
+          "checks L^T L = M / NonPSDError / ValueError. The prior and init constructors are observed directly: identity "
+          "bits, covariance = inverse covariance of the DISTINCT points (TLC de-duplicates and recomputes the scatter "
+          "exactly), random = seed-reproducible with a Cholesky certificate, array used as given with symmetry / shape / "
+          "PSD checks, strict-PD rejection of singular priors (also through ITML/LSML/SDML), (M, M^-1) pairs, the auto "
+          "rule Options!AutoSelect and the shape checks of the transformation init."),
+    note=("The band within a factor 4 of the tolerance is not generated (rounding decides there); likewise generic "
+          "rank-deficient priors, whose computed smallest eigenvalue is of the order of the tolerance - singular priors "
+          "are singular by structure (zero row/column, zero matrix). PCA / LDA internals of scikit-learn are out of scope "
+          "(shape and orthonormality only)."),
+    technique="TLA+ spectral-certificate model enumerated by TLC and replayed into code, TLC trace validation in exact dyadic arithmetic",
+    ref="DESIGN.md section 5 C20")
+
 NOT_YET = {}
 
 def main():
